@@ -88,7 +88,7 @@ func exploreGroupsFor(id string) []exploreGroup {
 	case "C08":
 		// "order": pipelines on one socket connection (C01's scenarios): the commands of one connection take
 		// effect and are answered in the order they were sent, whatever its goroutines do
-		return []exploreGroup{{"lin", 2, 3}, {"tx", 2, 3}, {"hist", 2, 3}, {"order", 2, 3}}
+		return []exploreGroup{{"lin", 2, 3}, {"tx", 2, 3}, {"hist", 2, 3}, {"order", 1, 2}}
 	case "C09":
 		return []exploreGroup{{"tx", 2, 3}}
 	}
